@@ -85,17 +85,24 @@ theorem rpush_eq (data : List Bytes) : ∀ (l : LList),
 
 theorem forEach_all (l : LList) : DsList.forEach l 0 (-1) = l.items := by
   unfold DsList.forEach DsList.size
-  simp only [ne_eq, not_true_eq_false, false_and, if_false]
-  have hf : (l.items.zipIdx.filter fun (p : Bytes × Nat) =>
-      decide ((if (0 : Int) < 0 then (l.items.length : Int) + 0 else 0) ≤ (p.2 : Int) ∧
-        (p.2 : Int) ≤ (if (-1 : Int) < 0 then (l.items.length : Int) + -1 else -1)))
-      = l.items.zipIdx := by
-    rw [List.filter_eq_self]
-    rintro ⟨x, i⟩ hm
-    have := List.mem_zipIdx hm
-    simp only [decide_eq_true_eq]
-    omega
-  rw [hf, List.zipIdx_map_fst]
+  have hc : ¬ ((if (0 : Int) < 0 then (if (0 : Int) + (l.items.length : Int) < 0 then 0 else 0 + (l.items.length : Int)) else 0)
+      > (if (-1 : Int) < 0 then (-1 : Int) + (l.items.length : Int) else -1)) ∨ l.items = [] := by
+    cases hl : l.items with
+    | nil => right; rfl
+    | cons a t => left; simp only [List.length_cons]; omega
+  rcases hc with hc | hc
+  · simp only [hc, if_false]
+    have hf : (l.items.zipIdx.filter fun (p : Bytes × Nat) =>
+        decide ((if (0 : Int) < 0 then (if (0 : Int) + (l.items.length : Int) < 0 then 0 else 0 + (l.items.length : Int)) else 0) ≤ (p.2 : Int) ∧
+          (p.2 : Int) ≤ (if (-1 : Int) < 0 then (-1 : Int) + (l.items.length : Int) else -1)))
+        = l.items.zipIdx := by
+      rw [List.filter_eq_self]
+      rintro ⟨x, i⟩ hm
+      have := List.mem_zipIdx hm
+      simp only [decide_eq_true_eq]
+      omega
+    rw [hf, List.zipIdx_map_fst]
+  · simp [hc]
 
 theorem decodeList_step (v rest : Bytes) (l : LList) (fuel : Nat) (h : v.length < 2 ^ 63) :
     decodeList (lenPrefixed v ++ rest) l (fuel + 1)
